@@ -5,6 +5,7 @@ import (
 	"fmt"
 	"math/rand/v2"
 	"sort"
+	"strings"
 	"sync"
 	"sync/atomic"
 	"testing"
@@ -14,7 +15,6 @@ import (
 	"github.com/NethermindEth/juno/core"
 	"github.com/NethermindEth/juno/core/felt"
 	"github.com/NethermindEth/juno/db"
-	"github.com/NethermindEth/juno/db/memory"
 	"github.com/NethermindEth/juno/pruner"
 	"github.com/NethermindEth/juno/verifh/lib"
 	"github.com/NethermindEth/juno/verifh/lib/chain"
@@ -179,7 +179,8 @@ func (w *world) deliver(desc string, send func() error) (eventResult, bool) {
 	res := eventResult{i0: w.rec.LogLen()}
 	w.batchCommits.Store(0)
 	w.inEvent.Store(true)
-	w.readersOn.Store(true)
+	// readers run while an event that can make the pruner delete is being handled
+	w.readersOn.Store(w.l1 >= 0 && w.pos > 0 && (strings.HasPrefix(desc, "L1") || uint64(w.l1) > w.head()))
 	err := send()
 	var stopped bool
 	var qerr error
@@ -215,7 +216,6 @@ func (w *world) l1HeadFor(n uint64) *core.L1Head {
 
 func (w *world) sendL1(n uint64) (eventResult, bool) {
 	w.l1 = int64(n)
-	w.twinDirty = true
 	if err := w.twin.BC.SetL1Head(w.l1HeadFor(n)); err != nil {
 		w.violation("harness:set-l1-head-failed", err.Error(), nil)
 		w.dead = true
@@ -427,7 +427,7 @@ func (w *world) crashImages(ev eventResult, target uint64, hashLost bool, resend
 	}
 	resumeAt := ks[w.rng.IntN(len(ks))]
 	for _, k := range ks {
-		img := w.rec.Image(k)
+		img := fastMem{w.rec.Image(k)}
 		bc, floor, err := newPrunedChain(img, w.cfg.NewState)
 		if err != nil {
 			w.violation("crash-mid-prune:floor-seed-fails", err.Error(), map[string]any{"commit": k})
@@ -507,7 +507,7 @@ func makeConfig(r *lib.Run, idx int, rng *rand.Rand) config {
 	c.Cancel = rng.IntN(5) < 2
 	c.Readers = 1
 	if r.Race {
-		c.Readers = 3
+		c.Readers = 2
 	}
 	return c
 }
@@ -538,7 +538,7 @@ func runScenario(r *lib.Run, idx int) {
 	w.shared.main.Store(w.main)
 	w.ps.SkipEvents = true // an unbounded event query fails on a pruned node by design; events are compared separately from the floor
 
-	w.rec = chain.NewRecDB(memory.New())
+	w.rec = chain.NewRecDB(newFastMem())
 	w.rec.OnCommit = func(_ int, ws chain.WriteSet) {
 		if ws.Direct || !w.inEvent.Load() {
 			return
@@ -557,7 +557,7 @@ func runScenario(r *lib.Run, idx int) {
 	}
 	w.bc.Store(bc)
 	w.floor = floor
-	w.twin = chain.NewMemNode(cfg.NewState)
+	w.twin = chain.NewNode(newFastMem(), cfg.NewState)
 	for w.pos < cfg.StartAt {
 		if !w.storeNext() {
 			return
@@ -863,7 +863,7 @@ func (w *world) restart() bool {
 
 func TestC16(t *testing.T) {
 	r := lib.Start("C16", "fault_enumeration")
-	n := r.N(48, 1600)
+	n := r.N(40, 1600)
 	r.Cases(n, 0, func(idx int) { runScenario(r, idx) })
 	r.Assume("the twin (same Juno code, never pruned) is the reference for every answer; its own correctness is C03/C04/C07's subject")
 	r.Assume("the only senders on the pruner's two feeds are the harness; an event counts as handled when both subscription channels are empty and the goroutine running Pruner.Run is parked in Run's select (runtime.Stack) - no sleep length enters a verdict")
